@@ -86,7 +86,7 @@ trait Comm {
         ensures c.clog() == old(self).clog(), final(self).clog() == final(c).clog(), final(self).wlog() == old(self).wlog();
 }
 
-//@ pc-twins: get_worker get_worker_mut remove_prefilled move_prefilled_task_to_ready
+//@ pc-twins: get_worker get_worker_mut remove_prefilled move_prefilled_task_to_ready add_ready_task
 // ---- WorkerMap (server/workermap.rs): `&self.workers[&id]` / `get_mut(..).expect(..)` — ASSUMED one-line accessors
 //@ extract struct WorkerMap file=crates/tako/src/internal/server/workermap.rs
 //@ expect file=crates/tako/src/internal/server/workermap.rs text="pub fn get_worker(&self, worker_id: WorkerId) -> &Worker { &self.workers[&worker_id] }"
@@ -183,6 +183,21 @@ impl TaskQueues {
     fn add_ready_task(&mut self, task: &Task, retracted: &mut Vec<TaskId>)
         requires (task.resource_rq_id.0 as nat) < old(self).n()
         ensures
+            final(self).n() == old(self).n(),
+            final(retracted)@ == old(retracted)@ + old(self).disposed_by(Priority::of_user(task.configuration.user_priority)),
+            old(self).disposed_by(Priority::of_user(task.configuration.user_priority)).no_duplicates(),
+            forall|x: TaskId| old(self).disposed_by(Priority::of_user(task.configuration.user_priority)).contains(x)
+                ==> exists|q: ResourceRqId| #[trigger] old(self).prefill_of(q).contains(x),
+            forall|q: ResourceRqId| #[trigger] final(self).prefill_of(q)
+                == old(self).prefill_of(q).difference(old(self).disposed_by(Priority::of_user(task.configuration.user_priority)).to_set()),
+            forall|q: ResourceRqId| #[trigger] final(self).ready_of(q)
+                == old(self).ready_of(q).union(old(self).prefill_of(q).intersect(old(self).disposed_by(Priority::of_user(task.configuration.user_priority)).to_set()))
+                    .union(if q == task.resource_rq_id { VSet::<TaskId>::empty().insert(task.id) } else { VSet::<TaskId>::empty() }),
+    { unimplemented!() }
+    #[verifier::external_body]
+    fn add_ready_task__pc(&mut self, task: &Task, retracted: &mut Vec<TaskId>)
+        ensures
+            (task.resource_rq_id.0 as nat) < old(self).n(),
             final(self).n() == old(self).n(),
             final(retracted)@ == old(retracted)@ + old(self).disposed_by(Priority::of_user(task.configuration.user_priority)),
             old(self).disposed_by(Priority::of_user(task.configuration.user_priority)).no_duplicates(),
